@@ -29,11 +29,11 @@ def plan(tier):
                 "required_classes": ["one-term", "one-site", "offset", "complex-factor", "multi-dof-site", "swap-walk",
                                      "duplicate-terms", "interleaved-same-site", "identical-duplicate-term", "units:tiny", "units:huge"],
                 "required_counters": {"oracle": 600, "swaps": 100}}
-    return {"ncases": 5000, "min_nontrivial": 1500, "case_time_limit": 300,
+    return {"ncases": 15000, "min_nontrivial": 4500, "case_time_limit": 300,
             "required_classes": ["one-term", "one-site", "offset", "complex-factor", "multi-dof-site", "swap-walk",
                                  "duplicate-terms", "interleaved-same-site", "real-factor-complex-matrix", "identical-duplicate-term",
                                  "units:tiny", "units:huge"],
-            "required_counters": {"oracle": 10000, "swaps": 3000}}
+            "required_counters": {"oracle": 30000, "swaps": 9000}}
 
 
 def riffle(rng, siteops):
